@@ -708,6 +708,97 @@ pub fn run(run: &Run) {
         reports.push(json!({"plan": name, "prefix_len": prefix.len(), "depth_bound": depth, "extended_alphabet": extended, "states": stats.states, "transitions": stats.transitions,
             "level_sizes": stats.level_sizes, "no_merge_pass": {"depth": nm.max_depth, "paths": nstats.states, "transitions": nstats.transitions}}));
     }
+    // ---- long histories: hundreds of streams and dozens of outstanding requests on one connection (tables that
+    //      are bounded, pruned or indexed by a narrowed id) ----
+    {
+        let g = G { thorough, c: Counters::new(&NAMES), max_streams: 100_000, max_outstanding: 100_000, extended: false };
+        let mut long_ok = 0u64;
+        let mut apply = |cur: &mut St, a: SAct, done: &mut Vec<Value>, name: &str| -> bool {
+            let o = g.step(cur, &a);
+            ti += o.impl_steps;
+            tt += 1;
+            if done.len() < 60 {
+                done.push(describe_sact(&a));
+            }
+            if let Some((sig, d)) = o.viol.into_iter().next() {
+                run.violation(&format!("{}/long-history", sig), &format!("{} ; after {} steps of '{}'", d, tt, name), json!({"plan": name, "first_ops": done, "failing_op": describe_sact(&a)}));
+                return false;
+            }
+            match o.succ.into_iter().next() {
+                Some(n) => {
+                    *cur = n;
+                    true
+                }
+                None => false,
+            }
+        };
+        let last_req = |st: &St| st.model.out.keys().next_back().cloned().unwrap_or(0);
+        for n_streams in [20usize, 300] {
+            let name = "hundreds of streams";
+            let mut cur = fresh_state();
+            let mut done = Vec::new();
+            let mut ok = apply(&mut cur, SAct::Connect { tx: 1.0, app: APP_A.into() }, &mut done, name);
+            let id = last_req(&cur);
+            ok = ok && apply(&mut cur, SAct::Accept { id }, &mut done, name);
+            for k in 0..n_streams {
+                ok = ok && apply(&mut cur, SAct::CreateStream { tx: 10.0 + k as f64 }, &mut done, name);
+            }
+            let sids: Vec<u32> = cur.model.issued_streams.iter().cloned().collect();
+            if ok && sids.len() == n_streams {
+                let (first, mid, last) = (sids[0], sids[n_streams / 2], sids[n_streams - 1]);
+                let script: Vec<(SAct, bool)> = vec![
+                    (SAct::Publish { sid: first, key: KEY1.into(), mode: "live".into() }, true), (SAct::Play { sid: mid, key: KEY2.into() }, true),
+                    (SAct::Publish { sid: last, key: KEY2.into(), mode: "live".into() }, true),
+                    (SAct::Audio { sid: first, ts: 7, len: 3 }, false), (SAct::Video { sid: last, ts: 9, len: 0 }, false), (SAct::Audio { sid: mid, ts: 7, len: 3 }, false),
+                    (SAct::Meta { sid: last, variant: 5 }, false), (SAct::DeleteStream { sid: mid }, false), (SAct::CloseStream { sid: first }, false),
+                    (SAct::Audio { sid: first, ts: 8, len: 3 }, false), (SAct::Video { sid: last, ts: 10, len: 2 }, false), (SAct::DeleteStream { sid: last }, false),
+                    (SAct::Video { sid: last, ts: 11, len: 2 }, false), (SAct::PingBurst { ts: 5, n: 2 }, false),
+                ];
+                for (a, accept) in script {
+                    ok = ok && apply(&mut cur, a, &mut done, name);
+                    if accept && ok {
+                        let id = last_req(&cur);
+                        ok = apply(&mut cur, SAct::Accept { id }, &mut done, name);
+                    }
+                }
+            }
+            if ok {
+                long_ok += 1;
+            }
+        }
+        for n_req in [17usize, 40, 300] {
+            let name = "dozens of outstanding requests";
+            let mut cur = fresh_state();
+            let mut done = Vec::new();
+            let mut ok = apply(&mut cur, SAct::Connect { tx: 1.0, app: APP_A.into() }, &mut done, name);
+            let id = last_req(&cur);
+            ok = ok && apply(&mut cur, SAct::Accept { id }, &mut done, name);
+            for k in 0..n_req {
+                ok = ok && apply(&mut cur, SAct::CreateStream { tx: 10.0 + k as f64 }, &mut done, name);
+            }
+            let sids: Vec<u32> = cur.model.issued_streams.iter().cloned().collect();
+            let mut ids: Vec<(u32, u32)> = Vec::new();
+            for (k, &sid) in sids.iter().enumerate() {
+                ok = ok && apply(&mut cur, if k % 2 == 0 { SAct::Publish { sid, key: format!("key {}", k), mode: "live".into() } } else { SAct::Play { sid, key: format!("key {}", k) } }, &mut done, name);
+                ids.push((last_req(&cur), sid));
+            }
+            for &(id, sid) in ids.iter().rev() {
+                ok = ok && apply(&mut cur, SAct::Accept { id }, &mut done, name);
+                ok = ok && apply(&mut cur, SAct::Audio { sid, ts: 1, len: 1 }, &mut done, name);
+            }
+            if let Some(&(id, _)) = ids.first() {
+                ok = ok && apply(&mut cur, SAct::Reject { id }, &mut done, name);
+                ok = ok && apply(&mut cur, SAct::Accept { id }, &mut done, name);
+            }
+            for &(_, sid) in ids.iter() {
+                ok = ok && apply(&mut cur, SAct::CloseStream { sid }, &mut done, name);
+            }
+            if ok {
+                long_ok += 1;
+            }
+        }
+        run.count("long_history_scripts_completed", long_ok);
+    }
     run.merge_hist(&agg.map());
     run.set("states", json!(ts));
     run.set("transitions", json!(tt));
